@@ -91,6 +91,7 @@ func TestCases(t *testing.T) {
 			groups = append(groups, g)
 		}
 		synctest.Wait()
+		tick := 0
 		sendAll := func(g *group, mm *gostatsd.MetricMap, what string, rec map[string]any) {
 			called := make([]int, len(g.bs))
 			for i, bb := range g.bs {
@@ -104,7 +105,25 @@ func TestCases(t *testing.T) {
 					}()
 					bb.b.SendMetricsAsync(bb.ctx, mm, func(errs []error) { called[i]++ })
 				}()
+				if tick%16 == 0 {
+					// the flush context may already be over when the payload is built (shutdown, a slow flush): building it must still
+					// not panic; a few tries, because which branch notices the dead context is up to the runtime
+					for k := 0; k < 6; k++ {
+						func() {
+							defer func() {
+								if x := recover(); x != nil {
+									res.Fail("C04", "payload-panic-cancelled:"+bb.name, fmt.Sprintf("%s panicked building its payload under a cancelled context (%s, %s): %v", bb.name, what, g.label, x), rec)
+								}
+							}()
+							dead, kill := context.WithCancel(bb.ctx)
+							kill()
+							bb.b.SendMetricsAsync(dead, mm, func(errs []error) {})
+						}()
+					}
+					res.Hit("payload-under-cancelled-context")
+				}
 			}
+			tick++
 			synctest.Wait()
 			for i, bb := range g.bs {
 				if p := bb.env.RunPanic(); p != nil {
